@@ -24,6 +24,19 @@ import (
 	"strings"
 )
 
+// strictTallyUnlock decides what happens when the timer closes a proposal (rejected /
+// completed) and an account that locked tokens for it keeps them locked. The statement only
+// forbids lock changes WITHOUT a lock / unlock operation; it does not say that an unlock
+// must be carried out. false: counted (tally.unlock_not_done) and reported in the evidence;
+// true: violation govtoken|do|unexpected-lock-ordinary-of-*.
+const strictTallyUnlock = false
+
+// strictLockRecords: an accepted tdpos revoke must release a lock that a live nomination /
+// vote of the caller actually holds ("locks bind": tokens locked for a vote that still
+// counts may not be released by revoking something else twice). With false only the
+// amounts are checked (0 <= locked <= balance, exact deltas).
+const strictLockRecords = true
+
 const (
 	ltOrdinary = "ordinary"
 	ltTdpos    = "tdpos"
@@ -307,25 +320,28 @@ func diffString(ds []adiff) string {
 }
 
 // invariants checks the op-independent part of the statement on an observed bucket.
-func (m *model) invariants(v *view, kind string) []problem {
+func (m *model) invariants(v *view, kind string, inited bool, supply *big.Int) []problem {
 	var ps []problem
 	if len(v.bad) > 0 {
 		ps = append(ps, problem{"govtoken|bucket|unparsable-or-unknown-record", strings.Join(v.bad, "; ")})
 	}
-	if !m.inited {
+	if !inited {
 		return ps
 	}
-	if v.supply == nil || v.supply.Cmp(m.supply) != 0 {
-		ps = append(ps, problem{"govtoken|total-supply-changed|after-" + kind,
-			fmt.Sprintf("totalSupply key is %v, supply fixed at Init is %s", v.supply, m.supply)})
+	if v.supply == nil || v.supply.Cmp(supply) != 0 {
+		sig := "govtoken|total-supply-changed|after-" + kind
+		if !m.inited {
+			sig = "govtoken|init|total-supply-is-not-the-sum-handed-out"
+		}
+		ps = append(ps, problem{sig, fmt.Sprintf("totalSupply key is %v, supply fixed at Init is %s", v.supply, supply)})
 	}
-	if s := v.sum(); s.Cmp(m.supply) != 0 {
+	if s := v.sum(); s.Cmp(supply) != 0 {
 		dir := "sum-below-supply"
-		if s.Cmp(m.supply) > 0 {
+		if s.Cmp(supply) > 0 {
 			dir = "sum-above-supply"
 		}
 		ps = append(ps, problem{"govtoken|conservation|after-" + kind + "|" + dir,
-			fmt.Sprintf("sum of balances %s != total supply %s", s, m.supply)})
+			fmt.Sprintf("sum of balances %s != total supply %s", s, supply)})
 	}
 	var names []string
 	for n := range v.accts {
@@ -383,7 +399,7 @@ func (m *model) step(o *op, out *outcome, after *view, psBefore, psAfter propSta
 		if ds := diffAccts(m.accts, after.accts); len(ds) > 0 {
 			ps = append(ps, problem{"govtoken|refused-call-changed-state|" + kind, "refused (" + out.err + ") but: " + diffString(ds)})
 		}
-		ps = append(ps, m.invariants(after, kind)...)
+		ps = append(ps, m.invariants(after, kind, m.inited, m.supply)...)
 		if len(ps) > 1 {
 			ps[0].detail += " || also: " + problemsString(ps[1:])
 			ps = ps[:1]
@@ -391,6 +407,7 @@ func (m *model) step(o *op, out *outcome, after *view, psBefore, psAfter propSta
 		return ps
 	}
 	exp := m.cloneAccts()
+	expInited, expSupply := m.inited, m.supply
 	var ps []problem
 	var commit []func()
 	illegal := func(sig, detail string) { ps = append(ps, problem{sig, detail}) }
@@ -412,8 +429,8 @@ func (m *model) step(o *op, out *outcome, after *view, psBefore, psAfter propSta
 			return
 		}
 		if new(big.Int).Sub(x.bal, x.locked[t]).Cmp(amt) < 0 {
-			illegal("govtoken|lock-accepted|exceeds-unlocked-balance|"+t+"|"+what,
-				fmt.Sprintf("%s: balance %s, already locked[%s] %s, asked to lock %s", short(a), x.bal, t, x.locked[t], amt))
+			illegal("govtoken|lock-accepted|exceeds-unlocked-balance|"+t,
+				fmt.Sprintf("%s (%s): balance %s, already locked[%s] %s, asked to lock %s", short(a), what, x.bal, t, x.locked[t], amt))
 		}
 		x.locked[t].Add(x.locked[t], amt)
 	}
@@ -428,13 +445,12 @@ func (m *model) step(o *op, out *outcome, after *view, psBefore, psAfter propSta
 			return
 		}
 		if x.locked[t].Cmp(amt) < 0 {
-			illegal("govtoken|unlock-accepted|exceeds-locked-amount|"+t+"|"+what,
-				fmt.Sprintf("%s: locked[%s] %s, asked to unlock %s", short(a), t, x.locked[t], amt))
+			illegal("govtoken|unlock-accepted|exceeds-locked-amount",
+				fmt.Sprintf("%s (%s): locked[%s] %s, asked to unlock %s", short(a), what, t, x.locked[t], amt))
 		}
 		x.locked[t].Sub(x.locked[t], amt)
 	}
 
-	skipped := map[string]bool{} // accounts whose due unlock may legitimately be observed as not done (see "do")
 
 	switch kind {
 	case "init":
@@ -449,6 +465,7 @@ func (m *model) step(o *op, out *outcome, after *view, psBefore, psAfter propSta
 				exp[a] = x
 				sup.Add(sup, q)
 			}
+			expInited, expSupply = true, sup
 			commit = append(commit, func() { m.inited = true; m.supply = sup })
 		}
 	case "transfer":
@@ -483,6 +500,20 @@ func (m *model) step(o *op, out *outcome, after *view, psBefore, psAfter propSta
 		// issued by a user transaction, directly or through a kernel contract that is neither
 		// the proposal nor a TDPoS contract: must never be accepted
 		illegal("govtoken|"+kind+"-accepted|unauthorised-caller|"+o.viaName(), fmt.Sprintf("%s %v by %s via %q accepted", kind, o.Args, short(o.By), o.Via))
+	case "rawlock", "rawunlock":
+		// a lock / unlock operation issued by a kernel contract that is entitled to (TDPoS name)
+		t, target := o.Args["lock_type"], o.Args["from"]
+		amt, okAmt := parseAmount(o.Args["amount"])
+		switch {
+		case t != ltOrdinary && t != ltTdpos:
+			illegal("govtoken|lock-or-unlock-accepted|unknown-lock-type", fmt.Sprintf("%s %v", kind, o.Args))
+		case !okAmt || amt.Sign() < 0:
+			illegal("govtoken|lock-or-unlock-accepted|amount-not-a-non-negative-number", fmt.Sprintf("%s %v", kind, o.Args))
+		case kind == "rawlock":
+			lock(target, t, amt, "raw")
+		default:
+			unlock(target, t, amt, "raw")
+		}
 	case "propose":
 		// a lock operation on the proposer; the amount is whatever the proposal contract chose
 		id := string(out.body)
@@ -537,7 +568,11 @@ func (m *model) step(o *op, out *outcome, after *view, psBefore, psAfter propSta
 		unlock(o.By, ltOrdinary, amt, "thaw")
 		commit = append(commit, func() { p.locks[o.By] = new(big.Int); p.status = "closed" })
 	case "do":
-		// the timer: proposals whose tally / trigger ran in this call release the locks held for them
+		// the timer: proposals whose tally / trigger ran in this call release the locks held
+		// for them. The timer swallows the failure of an individual unlock, so each due unlock
+		// is either carried out (then it must be a legal unlock of exactly that amount) or
+		// not at all (counted; see strictTallyUnlock).
+		due := map[string][]*big.Int{} // account -> amounts due in this call
 		for _, id := range sortedIDs(m.props) {
 			p := m.props[id]
 			was, now := psBefore[id], psAfter[id]
@@ -550,14 +585,61 @@ func (m *model) step(o *op, out *outcome, after *view, psBefore, psAfter propSta
 			case "rejected", "completed_success", "completed_failure":
 				now := now
 				for _, a := range sortedKeys(p.locks) {
-					amt := p.locks[a]
-					if amt.Sign() == 0 {
-						continue
+					if amt := p.locks[a]; amt.Sign() > 0 {
+						due[a] = append(due[a], amt)
 					}
-					unlock(a, ltOrdinary, new(big.Int).Set(amt), "tally")
-					skipped[a] = true
 				}
 				commit = append(commit, func() { p.status = "closed"; st.count("tally."+now, 1) })
+			}
+		}
+		var accs []string
+		for a := range due {
+			accs = append(accs, a)
+		}
+		sort.Strings(accs)
+		for _, a := range accs {
+			x, g := get(a), after.accts[a]
+			if x == nil || g == nil {
+				continue
+			}
+			released := new(big.Int).Sub(x.locked[ltOrdinary], zero(g.locked[ltOrdinary])) // observed
+			// which of the due unlocks were carried out? (a handful at most: try all subsets)
+			amts := due[a]
+			if len(amts) > 12 {
+				amts = amts[:12]
+			}
+			best := -1
+			for mask := (1 << uint(len(amts))) - 1; mask >= 0; mask-- {
+				sum := new(big.Int)
+				for i, v := range amts {
+					if mask&(1<<uint(i)) != 0 {
+						sum.Add(sum, v)
+					}
+				}
+				if sum.Cmp(released) == 0 {
+					best = mask
+					break
+				}
+			}
+			if best < 0 {
+				best = (1 << uint(len(amts))) - 1 // nothing fits: expect all of them, the comparison below reports
+			}
+			for i, v := range amts {
+				if best&(1<<uint(i)) != 0 {
+					unlock(a, ltOrdinary, new(big.Int).Set(v), "tally")
+				} else {
+					a, v := a, v
+					if x.locked[ltOrdinary].Cmp(v) < 0 {
+						// the account no longer holds that much: an unlock of the full amount would have been illegal
+						st.count("tally.unlock_not_done.lock-already-smaller", 1)
+						continue
+					}
+					st.count("tally.unlock_not_done.lock-sufficient", 1)
+					st.note("tally.unlock_not_done", fmt.Sprintf("account %s kept %s tokens locked although the proposal they were locked for was closed by the timer and its lock covered them", a, v))
+					if strictTallyUnlock {
+						illegal("govtoken|tally-leaves-lock-of-closed-proposal", fmt.Sprintf("%s keeps %s locked[ordinary] of a proposal the timer closed", short(a), v))
+					}
+				}
 			}
 		}
 	case "nominate", "tvote":
@@ -586,12 +668,19 @@ func (m *model) step(o *op, out *outcome, after *view, psBefore, psAfter propSta
 		}
 		cand := o.Args["candidate"]
 		have := m.tvotes[cand][o.By]
-		if have < n {
+		if have < n && strictLockRecords {
 			illegal("govtoken|unlock-accepted|no-matching-lock|revokevote",
 				fmt.Sprintf("%s revokes %d votes for %s but only %d of its votes are still locked (height arg %s)", short(o.By), n, short(cand), have, o.Args["height"]))
 		}
 		unlock(o.By, ltTdpos, big.NewInt(n), "revokevote")
-		commit = append(commit, func() { m.tvotes[cand][o.By] -= n })
+		commit = append(commit, func() {
+			if m.tvotes[cand] == nil {
+				m.tvotes[cand] = map[string]int64{}
+			}
+			if m.tvotes[cand][o.By] -= n; m.tvotes[cand][o.By] < 0 {
+				m.tvotes[cand][o.By] = 0
+			}
+		})
 	case "revokenom":
 		// an unlock operation on the initiator: it must release exactly what one of its live
 		// nominations of that candidate locked
@@ -611,6 +700,10 @@ func (m *model) step(o *op, out *outcome, after *view, psBefore, psAfter propSta
 					pick = r
 				}
 			}
+		}
+		if pick == nil && !strictLockRecords {
+			unlock(o.By, ltTdpos, d, "revokenom")
+			break
 		}
 		if pick == nil {
 			illegal("govtoken|unlock-accepted|no-matching-lock|revokenom",
@@ -640,26 +733,10 @@ func (m *model) step(o *op, out *outcome, after *view, psBefore, psAfter propSta
 
 	// compare the whole bucket with the expected state
 	ds := diffAccts(exp, after.accts)
-	// an unlock that was due in a tally but did not happen is not forbidden by the statement
-	// (locks may only change through lock / unlock operations; it does not say an unlock must
-	// work): keep the model in step with the code and count it
-	if kind == "do" && len(ds) > 0 {
-		var rest []adiff
-		for _, d := range ds {
-			if d.field == ltOrdinary && skipped[d.acct] && m.accts[d.acct] != nil && d.got.Cmp(m.accts[d.acct].locked[ltOrdinary]) == 0 {
-				exp[d.acct].locked[ltOrdinary].Set(d.got)
-				st.count("tally.unlock_not_done", 1)
-				st.note("tally.unlock_not_done", fmt.Sprintf("account %s kept locked[ordinary]=%s although the proposal it was locked for was closed by the timer", d.acct, d.got))
-				continue
-			}
-			rest = append(rest, d)
-		}
-		ds = rest
-	}
 	if len(ds) > 0 {
 		ps = append(ps, classify(o, m, exp, after, ds))
 	}
-	ps = append(ps, m.invariants(after, kind)...)
+	ps = append(ps, m.invariants(after, kind, expInited, expSupply)...)
 	if len(ps) > 1 {
 		// one call, one root cause: report the most specific problem, keep the rest as detail
 		ps[0].detail += " || also: " + problemsString(ps[1:])
@@ -709,20 +786,48 @@ func classify(o *op, m *model, exp map[string]*acct, after *view, ds []adiff) pr
 			}
 		}
 	}
-	// generic: name the first difference structurally
-	d := ds[0]
-	role := "other-account"
-	switch {
-	case d.acct == o.By:
-		role = "caller"
-	case o.Kind == "transfer" && d.acct == o.Args["to"]:
-		role = "receiver"
+	if o.Kind == "init" && m.inited {
+		return problem{"govtoken|second-init-changed-state", detail}
 	}
+	// generic: name the most significant difference structurally (receiver before sender
+	// before third parties, balances before locks)
+	role := func(d adiff) (string, int) {
+		switch {
+		case o.Kind == "do":
+			return "an-account", 0
+		case o.Kind == "transfer" && d.acct == o.Args["to"]:
+			return "receiver", 0
+		case d.acct == o.By:
+			return "caller", 1
+		}
+		return "other-account", 2
+	}
+	field := func(d adiff) int {
+		switch d.field {
+		case "bal", "missing":
+			return 0
+		case ltOrdinary:
+			return 1
+		case ltTdpos:
+			return 2
+		}
+		return 3
+	}
+	sort.SliceStable(ds, func(i, j int) bool {
+		_, ri := role(ds[i])
+		_, rj := role(ds[j])
+		if ri != rj {
+			return ri < rj
+		}
+		return field(ds[i]) < field(ds[j])
+	})
+	d := ds[0]
+	rn, _ := role(d)
 	what := "lock-" + d.field
 	if d.field == "bal" || d.field == "missing" {
 		what = "balance"
 	}
-	return problem{"govtoken|" + o.Kind + "|unexpected-" + what + "-of-" + role, detail}
+	return problem{"govtoken|" + o.Kind + "|unexpected-" + what + "-of-" + rn, detail}
 }
 
 func parseInt64(s string) (int64, bool) {
